@@ -35,7 +35,7 @@ def check_C15(run):
     stage_judge_fold(run, res, name="judge_fold_fgroup3")
     zin = os.path.join(run.work, "zoo_in.ndjson")
     with open(zin, "w") as f:
-        for q in checks_parser.zoo_texts() + checks_parser.fragment_texts():
+        for q in checks_parser.zoo_texts() + checks_parser.fragment_texts() + checks_parser.depth_sweep_texts():
             f.write(json.dumps(q) + "\n")
     res = os.path.join(run.work, "fold_zoo.ndjson")
     sz = run.harness(["fold-text", "-in", zin, "-out", res])
